@@ -332,23 +332,40 @@ def _replay_chunk(args):
 _STATE_HDR = re.compile(r'^State \d+:\n', re.M)
 
 
-def final_bodies(res):
+def final_bodies(res, wave=20000):
+    """Raw text of the dumped states in which a file has been read to its end (distinct ones), streamed from the dump in
+    waves of at most `wave` states so that large dumps never sit in memory."""
+    import hashlib
+    seen, out, cur = set(), [], []
+
+    def flush():
+        body = ''.join(cur)
+        if not body or 'phase = "lines"' not in body or 'outcome |-> "reading"' in body:
+            return
+        h = hashlib.md5(body.encode()).digest()
+        if h not in seen:
+            seen.add(h)
+            out.append(body)
     with open(res.dump_path) as fh:
-        chunks = _STATE_HDR.split(fh.read())[1:]
-    seen, out = set(), []
-    for body in chunks:
-        if 'phase = "lines"' not in body or 'outcome |-> "reading"' in body or body in seen:
-            continue
-        seen.add(body)
-        out.append(body)
-    return out
+        for line in fh:
+            if line.startswith('State ') and _STATE_HDR.match(line):
+                flush()
+                cur = []
+                if len(out) >= wave:
+                    yield out
+                    out = []
+            else:
+                cur.append(line)
+    flush()
+    if out:
+        yield out
 
 
 def replay_states(res, ev, vd, label, wanted=()):
-    bodies = final_bodies(res)
-    parts = common.chunks(bodies, tlc.NCPU * 2)
+    outs = []
     with mp.Pool(tlc.NCPU) as pool:
-        outs = pool.map(_replay_chunk, [(p, set(wanted)) for p in parts])
+        for bodies in final_bodies(res):
+            outs += pool.map(_replay_chunk, [(p, set(wanted)) for p in common.chunks(bodies, tlc.NCPU * 2)])
     unspec, kept, total, loaded = 0, {}, 0, 0
     for n, bad, u, cases, k, nl in outs:
         total += n
@@ -520,7 +537,7 @@ def run_part(tier, seed, ev, vd):
         res = run_model('faults', [SKEL_STALE, SKEL_STALE2, SKEL_DICT], [], 0, [], 0)
         ev.add_tlc('TAB ItpFile (fault skeletons: molecule type referring to atoms it does not have)', res)
         unspec += replay_states(res, ev, vd, '.itp fault skeleton')[0]
-        res = run_model('edits2', [SKEL_DICT], EDIT_MENU_QUICK, 2, [], 0, timeout=3000)
+        res = run_model('edits2', [SKEL_DICT], EDIT_MENU_QUICK[:3] + EDIT_MENU_QUICK[5:12], 2, [], 0, timeout=3000)
         ev.add_tlc('TAB ItpFile (1 skeleton file, two edits)', res)
         unspec += replay_states(res, ev, vd, '.itp two edits')[0]
     ev.extra['itp_files_outside_grammar_not_compared'] = unspec
